@@ -299,17 +299,77 @@ fn main() {
         ctx.assume("std::io::BufReader is correct");
         ctx.assume("CRAM documents differ byte-wise between processes (std RandomState in the CRAM writer): replay by choice index addresses the same structural position, not necessarily the same byte values");
 
+        // by-path producers of the corpus (sam::fs::index over File + BGZF windows): a valid document the producer
+        // rejects although it accepts the same uncompressed stream re-blocked as ONE BGZF member is a delivery
+        // dependence (recorded by vnd::corpus instead of stopping the run; see vnd::ByPathFailure)
+        {
+            let fails = vnd::by_path_failures();
+            let n = fails.len().max(1) as u64;
+            let f2 = fails.clone();
+            ctx.sweep(
+                "by_path",
+                n,
+                move |i| f2.get(i as usize).map(|f| format!("{} on {}", f.producer, f.doc)).unwrap_or_else(|| "all by-path producers accepted every corpus document".into()),
+                move |i| match fails.get(i as usize) {
+                    None => Ok(()),
+                    Some(f) => Err(Violation::new(
+                        format!("api=by-path producer={} symptom=rejected-as-written-accepted-as-one-member", f.producer),
+                        format!("corpus document {} (valid, written by the noodles writer, header flushed into its own BGZF member) through {} by path", f.doc, f.producer),
+                        "the same result as for the same uncompressed stream in a single BGZF member (Ok)".to_string(),
+                        format!("Err({})", f.error),
+                    )),
+                },
+            );
+        }
+
         // specification logs
         let mut spec: HashMap<(usize, Api), Arc<Vec<String>>> = HashMap::new();
+        let mut spec_layout: Vec<(String, String, String, String)> = Vec::new();
         for (i, d) in docs.iter().enumerate() {
             for &api in Api::all_for(d.format) {
                 let log = vnd::read_log(d.format, &d.bytes[..], &Opts::for_doc(d).api(api));
                 let last = log.last().cloned().unwrap_or_default();
                 let crai_eager = d.format == Format::Crai && api == Api::Eager;
                 if !vnd::is_end_eof(&last) && !crai_eager && i < n_corpus {
-                    vmc::machinery(format!("corpus document {} does not read cleanly from a plain slice with {api:?}: {last}", d.name));
+                    // a valid document written by the noodles writer that its reader rejects: a machinery error,
+                    // unless the reader accepts the SAME uncompressed stream as a single BGZF member -- then the
+                    // outcome depends on the member layout, i.e. on how the bytes are delivered
+                    let relaid = d.inner.as_ref().and_then(|inner| {
+                        use std::io::Write as _;
+                        let mut w = noodles_bgzf::io::Writer::new(Vec::new());
+                        w.write_all(&inner.bytes).ok()?;
+                        let one = w.finish().ok()?;
+                        let log2 = vnd::read_log(d.format, &one[..], &Opts::for_doc(d).api(api));
+                        log2.last().filter(|l| vnd::is_end_eof(l)).map(|_| ())
+                    });
+                    if relaid.is_none() {
+                        vmc::machinery(format!("corpus document {} does not read cleanly from a plain slice with {api:?}: {last}", d.name));
+                    }
+                    spec_layout.push((d.name.clone(), format!("{}", d.format), format!("{api:?}"), last.clone()));
                 }
                 spec.insert((i, api), Arc::new(log));
+            }
+        }
+        {
+            let n = spec_layout.len().max(1) as u64;
+            let (a, b) = (spec_layout.clone(), spec_layout.clone());
+            ctx.sweep(
+                "written_layout",
+                n,
+                move |i| a.get(i as usize).map(|f| format!("{} with {}", f.0, f.2)).unwrap_or_else(|| "every corpus document reads cleanly in the member layout it was written in".into()),
+                move |i| match b.get(i as usize) {
+                    None => Ok(()),
+                    Some(f) => Err(Violation::new(
+                        format!("format={} api={} symptom=rejected-as-written-accepted-as-one-member", f.1, f.2),
+                        format!("corpus document {} (valid, written by the noodles writer with flushes between header and records) read from a plain slice", f.0),
+                        "end: EOF, as for the same uncompressed stream in a single BGZF member".to_string(),
+                        f.3.clone(),
+                    )),
+                },
+            );
+            if !spec_layout.is_empty() {
+                // the specification logs of these documents are unusable; the verdict above stands on its own
+                return;
             }
         }
 
